@@ -89,6 +89,10 @@ class Plugin:
 class Engine:
     def __init__(self, plugin):
         self.p = plugin
+        try:
+            plugin.engine = self
+        except AttributeError:
+            pass
 
     def run(self, stmts, states):
         return self.block(stmts, set(states))
